@@ -305,16 +305,16 @@ def checksOk (H : Hashes) (c : Bytes) (x : Cks) : Bool :=
   (x.crc32.all (· = H.crc32 c)) && (x.crc32c.all (· = H.crc32c c)) &&
   (x.sha1.all (· = H.sha1 c)) && (x.sha256.all (· = H.sha256 c))
 
-/-- sequential `remove_file` of `delete_objects` -/
+/-- the removal loop of `delete_objects` (7d30be5): a path at which nothing exists — the key never existed, or an earlier
+    item of the request removed it — is skipped, a file is removed (`remove_file` fails on a directory); every key the
+    loop gets past is reported -/
 def removeFiles (bd : Bytes) : List (Path × Bytes) → State → List Bytes → State × Option (List Bytes)
   | [], s, done => (s, some done.reverse)
   | (p, k) :: rest, s, done =>
-    match s.tree bd with
-    | none => (s, none)
-    | some t =>
-      match t.node p with
-      | some (.file _) => removeFiles bd rest (s.setTree bd (alErase p t)) (k :: done)
-      | _ => (s, none)
+    match s.node bd p with
+    | none => removeFiles bd rest s (k :: done)
+    | some (.file _) => removeFiles bd rest (s.setTree bd (alErase p ((s.tree bd).getD []))) (k :: done)
+    | some .dir => (s, none)
 
 /-! ## the operations -/
 
@@ -453,14 +453,14 @@ def step (H : Hashes) (dirLen : Nat) (s : State) : Op → State × Resp
     match keys.mapM (fun k => (objPath b k).map fun r => (r, k)) with
     | .error e => (s, .err e)
     | .ok rs =>
-      let existing := rs.filter fun r => (s.node r.1.1 r.1.2).isSome
       -- 0f31b61: after the keys are resolved the bucket must exist: `get_bucket_path(bucket)?.exists()`
       match bucketDir b with
       | none => (s, .err .InvalidBucketName)                       -- only reachable with no keys
       | some bd =>
         if !alHas bd s.buckets then (s, .err .NoSuchBucket)
         else
-        match removeFiles bd (existing.map fun r => (r.1.2, r.2)) s [] with
+        -- 7d30be5: every requested key goes through the removal loop (before, only those that existed beforehand did)
+        match removeFiles bd (rs.map fun r => (r.1.2, r.2)) s [] with
         | (s1, none) => (s1, .err .InternalError)
         | (s1, some ks) => (s1, .deleted ks)
   | .copyObject sb sk db dk =>
